@@ -853,3 +853,69 @@ def zwin_script(seed, idx, fam="zwin"):
              sock("B", B_ADDR, rand=[gen(), gen()], link_mtu=link, rx_buf=rx)]
     return script(f"{fam}/{idx}", seed * 61 + idx, socks, st, net={"latency_us": lat},
                   info={"family": fam, "class": "fair-lossy", "rx": rx, "n": n, "mss": mss})
+
+# ------------------------------------------------------------------ socket-level corner cases with a scripted peer (C12, C13)
+def _hdr_bytes(ty, cid, seq, ack, wnd=1 << 20):
+    return [(ty << 4) | 1, 0, cid >> 8 & 255, cid & 255, 0, 0, 0, 0, 0, 0, 0, 0,
+            wnd >> 24 & 255, wnd >> 16 & 255, wnd >> 8 & 255, wnd & 255, seq >> 8 & 255, seq & 255, ack >> 8 & 255, ack & 255]
+
+def clash_pending_script(seed, idx, fam="sockpeer"):
+    """Several connects to one peer are pending; they complete (or are given up) out of slot order; then the peer's
+    own SYN arrives with the connection id a still-pending connect has reserved.  It must not be accepted under
+    that id; the pending connect must still complete on its own SYN-ACK."""
+    rng = random.Random(seed * 1000003 + idx * 41 + 17)
+    cid0 = rng.choice([10, 65530, 2 * rng.randrange(50, 30000)])
+    n = rng.choice([2, 2, 3, 4])
+    isns = [1000 * (i + 1) for i in range(n)]
+    cids = [(cid0 + 2 * i) % 65536 for i in range(n)]
+    st = [{"op": "accept", "sock": "A", "ep": "s"}]
+    for i in range(n):
+        st.append({"op": "connect", "sock": "A", "to": "P", "ep": f"c{i}"})
+    st.append(sleep(1010))
+    order = list(range(n))
+    rng.shuffle(order)
+    victim = order[-1]                    # stays pending until the end
+    for i in order[:-1]:
+        if rng.random() < 0.7:
+            st.append(peer("raw", bytes=_hdr_bytes(2, cids[i], 7000 + i, isns[i]), to="A"))      # its SYN-ACK
+        else:
+            st.append({"op": "abandon", "ep": f"c{i}"})
+        st.append(sleep(1010))
+    # the peer's own SYN: the library would receive on syn id + 1 = the victim's reserved id
+    st += [peer("syn", cid=(cids[victim] - 1) % 65536, seq=5000, to="A"), sleep(1010),
+           peer("raw", bytes=_hdr_bytes(2, cids[victim], 7000 + victim, isns[victim]), to="A"), sleep(1010),
+           {"op": "wait", "what": "connect", "timeout_us": 2 * SEC}]
+    for i in range(n):
+        st += [{"op": "abandon", "ep": f"c{i}"}, {"op": "drop", "ep": f"c{i}"}]
+    st += [{"op": "abandon", "ep": "s"}, {"op": "drop", "ep": "s"}, sleep(20 * SEC)]
+    socks = [sock("A", A_ADDR, rand=[cid0] + isns + [9000, 9001], link_mtu=576, max_retx=2, inactivity_ms=3000),
+             sock("P", P_ADDR, raw=True)]
+    return script(f"{fam}/{idx}", seed * 67 + idx, socks, st, net={"latency_us": 1000},
+                  info={"family": fam, "variant": "clash_pending", "n": n, "victim": victim, "backlog": backlog_from_source()},
+                  mute=["poll"])
+
+def dup_syn_live_script(seed, idx, fam="sockpeer"):
+    """A SYN is seen again (network duplicate / retransmission) after its connection was accepted, while no accept
+    call is waiting; the connection then ends; the next accept call must keep waiting (nobody else connected)."""
+    rng = random.Random(seed * 1000003 + idx * 43 + 19)
+    cid = rng.choice([300, 65535, 2 * rng.randrange(50, 30000)])
+    st = [{"op": "accept", "sock": "A", "ep": "x"},
+          peer("syn", cid=cid, seq=2000, to="A"),
+          {"op": "wait", "what": "accept", "timeout_us": 1 * SEC},
+          sleep(1010), peer("ack"), sleep(1010),
+          {"op": "read", "ep": "x"}]
+    for _ in range(rng.choice([1, 1, 3])):
+        st += [peer("raw", bytes=_hdr_bytes(4, cid, 2000, 0, wnd=0), to="A"), sleep(rng.choice([1010, 50000]))]
+    end = rng.choice(["reset", "reset", "drop"])
+    if end == "reset":
+        st += [peer("reset"), sleep(1010)]
+    st += [{"op": "drop", "ep": "x"}, sleep(rng.choice([1010, 8 * SEC])),
+           {"op": "accept", "sock": "A", "ep": "y"}, sleep(3 * SEC),
+           {"op": "abandon", "ep": "y"}, {"op": "drop", "ep": "y"}, sleep(20 * SEC)]
+    socks = [sock("A", A_ADDR, rand=[500, 100, 200, 300], link_mtu=576, max_retx=2, inactivity_ms=3000),
+             sock("P", P_ADDR, raw=True)]
+    return script(f"{fam}/{idx}", seed * 71 + idx, socks, st, net={"latency_us": 1000},
+                  info={"family": fam, "variant": "dup_syn_live", "end": end, "backlog": backlog_from_source()}, mute=["poll"])
+
+def sockpeer_script(seed, idx, fam="sockpeer"):
+    return clash_pending_script(seed, idx, fam) if idx % 2 == 0 else dup_syn_live_script(seed, idx, fam)
